@@ -148,6 +148,19 @@ def observe(model, viol, site, probes, extra_tree):
                 viol('round-trip', site, '%s does not round-trip in namespace %r (mode %s): keys %r' % (name, ns, want_eff, list(back.keys())))
             if spec != spec2 or spec != ctor:
                 viol('order-mismatch', site, 'treespecs of one %s obtained through flatten / with_path / constructor differ in namespace %r' % (name, ns))
+            # the treespec must carry what is needed to reproduce its own order: every entry point records the same
+            # namespace (== treats '' as a wildcard, so compare the fields), and re-flattening in the RECORDED namespace
+            # gives the same leaf order (this is what tree_transpose / tree_map with such a treespec rely on)
+            spec3 = optree.tree_structure(tree, namespace=ns)
+            accs_spec = optree.tree_flatten_with_accessor(tree, namespace=ns)[2]
+            for how, other in (('with_path', spec2), ('structure', spec3), ('with_accessor', accs_spec)):
+                if (other.namespace, repr(other), hash(other)) != (spec.namespace, repr(spec), hash(spec)):
+                    viol('order-mismatch', site, 'treespec of a %s from tree_flatten_%s differs from tree_flatten\'s in namespace %r under mode %s: %r vs %r' % (
+                        name, how, ns, want_eff, other, spec))
+                again = optree.tree_flatten(tree, namespace=other.namespace)
+                if again[0] != leaves or again[1] != other:
+                    viol('round-trip', site, 're-flattening a %s in the namespace recorded by its %s treespec (%r) gives leaves %r instead of %r' % (
+                        name, how, other.namespace, again[0], leaves))
         leaves, spec = optree.tree_flatten(od, namespace=ns)
         if leaves != [1, 2, 3] or spec.entries() != PROBE_KEYS_INS or spec != optree.treespec_ordereddict(OrderedDict((k, optree.treespec_leaf()) for k in PROBE_KEYS_INS), namespace=ns):
             viol('order-mismatch', site, 'OrderedDict affected by the mode in namespace %r: %r' % (ns, spec.entries()))
